@@ -196,6 +196,9 @@ def entries : List Entry := [
       | [f, sc, ti, u, pw, d, _w, nh, lh, t, cc, lmcc] => do
         let f ← f.toNat?; let sc ← fromHex sc
         if f / 0x80000 % 2 = 1 then
+          -- the NT response (48 octets more than the target information) must fit the 16-bit length of its descriptor;
+          -- CreateAuthenticateMessage refuses one that does not (the layout itself is property C08)
+          if (← fromHex ti).length + 48 > 65535 then pure "err" else
           let r := v2Response (← fromHex pw) (← fromHex u) (← fromHex d) sc (← fromHex ti) (← t.toNat?) (← fromHex cc) (← fromHex lmcc)
           pure (okE [r.1, r.2])
         else pure (both (lmResponse (← fromHex lh) sc) (ntResponse (← fromHex nh) sc))
@@ -205,6 +208,9 @@ def entries : List Entry := [
         let f ← f.toNat?; let sc ← fromHex sc
         if f / 0x80000 % 2 = 1 then
           let pw ← fromHex pw; let u ← fromHex u; let d ← fromHex d; let ti ← fromHex ti
+          -- a response that a 16-bit length cannot announce cannot be sent whole: refusing is the only answer a verifier
+          -- would not reject
+          if ti.length + 48 > 65535 then pure "err" else
           if blob == "none" then pure "invalid" else
           let cc ← fromHex cc; let lmcc ← fromHex lmcc; let b ← fromHex blob
           let ok := blobFrame b cc && (b.drop 28).take (b.length - 32) == ti && (!Spec.avList ti || Spec.blobWellFormed b cc)
